@@ -295,21 +295,133 @@ def Cert.meta (c : Cert) : Meta :=
     spkiSubjectFp := ZV.Hash.sha256 (c.rawSPKI ++ c.rawSubject)
     issuerEqSubject := c.rawSubject == c.rawIssuer }
 
+/-- the byte string `FingerprintNoCT` hashes (`c.meta.noCTFp = sha256 c.noCT` by definition) -/
+def Cert.noCT (c : Cert) : Bytes := noCTBytes c.tbs.pre c.tbs.exts
+
 /-- `SelfSigned`: issuer bytes equal subject bytes and the signature verifies under the certificate's own key
     (`verified` = result of `CheckSignature(alg, RawTBS, sig)`, abstract). -/
 def selfSigned (m : Meta) (verified : Bool) : Bool := m.issuerEqSubject && verified
 
-/-! ### canonical encoder used by the CT theorem (`asn1.Marshal` of a `tbsCertificate`) -/
+/-! ### canonical encoder used by the CT theorems (`asn1.Marshal` of a `tbsCertificate` / `certificate`)
+
+  The encoder is parametrised by the *encodings* of the fields (each one TLV), so that the theorems
+  `parseTbs_encTbs` / `parseCert_encCert` (ZV.Props.C06) hold for every well-formed choice of them — not only
+  for the ones a particular marshaller would emit.  Only the wrappers the CT property is about (`[0]`, `[3]`,
+  the SEQUENCE OF Extension, the TBS and certificate SEQUENCEs) are produced with `writeTLV`. -/
 
 def encExt (oid : Bytes) (critical : Bool) (value : Bytes) : Bytes :=
   writeTLV 0x30 (writeTLV 0x06 oid ++ (if critical then writeTLV 0x01 [0xff] else []) ++ writeTLV 0x04 value)
 
-/-- `[3] EXPLICIT SEQUENCE OF Extension`; an empty (nil) list is omitted. -/
-def encExtsField (xs : List Ext) : Bytes :=
-  if xs.isEmpty then [] else writeTLV 0xA3 (writeTLV 0x30 (extsFlat xs))
+/-- the `pkix.Extension` value `parseExt` decodes from `encExt oid critical value` -/
+def mkExt (oid : Bytes) (critical : Bool) (value : Bytes) : Ext := ⟨encExt oid critical value, oid, critical, value⟩
 
-def encTbs (pre : Bytes) (xs : List Ext) : Bytes := writeTLV 0x30 (pre ++ encExtsField xs)
+/-- `[3] EXPLICIT SEQUENCE OF Extension`.  An empty list is omitted (Go: nil slice) unless `wrapEmpty`
+    (Go: empty non-nil slice, what `CreateCertificate` leaves for a template without extensions), in which
+    case the field is `A3 02 30 00`. -/
+def encExtsField (wrapEmpty : Bool) (xs : List Ext) : Bytes :=
+  if xs.isEmpty && !wrapEmpty then [] else writeTLV 0xA3 (writeTLV 0x30 (extsFlat xs))
+
+/-- the fields of a `tbsCertificate` other than `Extensions`, each given by its own encoding. -/
+structure TbsFields where
+  version : Option Bytes      -- the INTEGER element inside `[0] EXPLICIT` (none ⇒ the field is omitted)
+  serial : Bytes              -- INTEGER element
+  sigalg : Bytes              -- SEQUENCE element
+  issuer : Bytes              -- any element (asn1.RawValue)
+  validity : Bytes            -- SEQUENCE element
+  subject : Bytes             -- any element (asn1.RawValue)
+  spki : Bytes                -- SEQUENCE element
+  issuerUID : Option Bytes    -- `[1] IMPLICIT BIT STRING` element
+  subjectUID : Option Bytes   -- `[2] IMPLICIT BIT STRING` element
+  wrapEmpty : Bool            -- write the `[3]` field also for an empty extension list (`A3 02 30 00`)
+  deriving Repr, DecidableEq
+
+def encVersion : Option Bytes → Bytes
+  | none => []
+  | some v => writeTLV 0xA0 v
+
+def optBytes : Option Bytes → Bytes
+  | none => []
+  | some b => b
+
+/-- everything before the extensions field -/
+def encTbsPre (f : TbsFields) : Bytes :=
+  encVersion f.version ++ f.serial ++ f.sigalg ++ f.issuer ++ f.validity ++ f.subject ++ f.spki
+    ++ optBytes f.issuerUID ++ optBytes f.subjectUID
+
+/-- contents of the TBS SEQUENCE -/
+def encTbsBody (f : TbsFields) (xs : List Ext) : Bytes := encTbsPre f ++ encExtsField f.wrapEmpty xs
+
+def encTbs (f : TbsFields) (xs : List Ext) : Bytes := writeTLV 0x30 (encTbsBody f xs)
+
+/-- `Certificate ::= SEQUENCE { tbs, signatureAlgorithm, signatureValue }` from the three encodings -/
+def encCert (tbs sigalg sig : Bytes) : Bytes := writeTLV 0x30 (tbs ++ sigalg ++ sig)
 
 def insertAt {α} (i : Nat) (x : α) (l : List α) : List α := l.take i ++ x :: l.drop i
+
+/-! #### decidable well-formedness of the encoder's arguments -/
+
+/-- the element a byte string starts with (`⟨0,false,0,0⟩, [], []` when there is none) -/
+def elemAt (bs : Bytes) : Elem :=
+  match readElem bs with
+  | .ok (e, _) => e
+  | _ => ⟨⟨0, false, 0, 0⟩, [], []⟩
+
+/-- `bs` is exactly one element (strict DER header, body of the announced length, nothing after it) whose
+    header is what `parseField` wants. -/
+def isElem (w : Want) (bs : Bytes) : Bool :=
+  match readElem bs with
+  | .ok (e, rest) => rest.isEmpty && w.ok e.hdr
+  | _ => false
+
+def wfVersion : Option Bytes → Bool
+  | none => true
+  | some v => isElem (.univ 2 false) v && (parseInt64 (elemAt v).body).isOk
+
+def wfUID (k : Nat) : Option Bytes → Bool
+  | none => true
+  | some u => isElem (.ctx k false) u && (parseBitString (elemAt u).body).isOk
+
+/-- every field is one element of the tag `parseField` expects at that position, with the content checks
+    `parseTbsPre` performs (version fits int64, serial is a minimal INTEGER, unique ids are BIT STRINGs). -/
+def wfFields (f : TbsFields) : Bool :=
+  wfVersion f.version
+    && (isElem (.univ 2 false) f.serial && checkInteger (elemAt f.serial).body)
+    && isElem (.univ 16 true) f.sigalg
+    && isElem .any f.issuer
+    && isElem (.univ 16 true) f.validity
+    && isElem .any f.subject
+    && isElem (.univ 16 true) f.spki
+    && wfUID 1 f.issuerUID
+    && wfUID 2 f.subjectUID
+
+/-- `x.full` is exactly one SEQUENCE element and `parseExt` decodes it to `x`. -/
+def wfExt (x : Ext) : Bool :=
+  match readElem x.full with
+  | .ok (e, rest) => rest.isEmpty && isSeqHdr e.hdr && decide (parseExt e = .ok x)
+  | _ => false
+
+/-- the outer `signatureAlgorithm` / `signatureValue` encodings -/
+def wfSig (sigalg sig : Bytes) : Bool :=
+  isElem (.univ 16 true) sigalg && isElem (.univ 3 false) sig && (parseBitString (elemAt sig).body).isOk
+
+/-- all arguments of `encCert (encTbs f xs) sigalg sig` are well-formed and the result is shorter than 2^31
+    octets (the bound of `parseTagAndLength`'s length accumulator and of `lenDigits`). -/
+def wfCert (f : TbsFields) (xs : List Ext) (sigalg sig : Bytes) : Bool :=
+  wfFields f && xs.all wfExt && wfSig sigalg sig && decide ((encTbs f xs ++ sigalg ++ sig).length < 2147483648)
+
+/-- **the certificate has the shape the canonical encoder produces** (decidable, on the parse result): no
+    trailing elements after `signatureValue`; the TBS contents are exactly the fields followed by the canonical
+    extensions field of the parsed list (for `[]`: absent, or `A3 02 30 00`; nothing after it); and the `[0]`
+    version wrapper, when present, has a length consistent with its content (what was consumed is one element). -/
+def Cert.shapeOK (c : Cert) : Bool :=
+  c.raw.body == c.tbsE.full ++ c.sigalg.full ++ c.sigval.full
+    && (c.tbsE.body == c.tbs.pre ++ encExtsField false c.tbs.exts
+         || c.tbsE.body == c.tbs.pre ++ encExtsField true c.tbs.exts)
+    && (c.tbs.verRaw.isEmpty || isElem (.ctx 0 true) c.tbs.verRaw)
+
+/-- the decoded version (0 when the field is absent) -/
+def verInt : Option Bytes → Int
+  | none => 0
+  | some v => intOfBytes (elemAt v).body
 
 end ZV.C06
